@@ -139,7 +139,25 @@ def prims():
         defjvp(foo, lambda g, ans, a, b: anp.sum(g * 4.0 * a) * k, lambda g, ans, a, b: g * 2.0 * b)
         return lambda t: foo(t[0], t[1])
 
+    def dict_out(defect):
+        # a dict-valued primitive whose forward rule builds its tangent dict with the keys in ANOTHER insertion order
+        # than the primal value: the checker must pair entries by key
+        @primitive
+        def foo(x):
+            return {"u": x * x, "v": 3.0 * x}
+
+        if defect == "swapped":
+            defvjp(foo, lambda ans, x: lambda g: g["v"] * 2.0 * x + g["u"] * 3.0)
+        else:
+            defvjp(foo, lambda ans, x: lambda g: g["u"] * 2.0 * x + g["v"] * 3.0)
+        if defect == "swapped":
+            defjvp(foo, lambda g, ans, x: {"v": g * 2.0 * x, "u": g * 3.0})  # the two entries' tangents exchanged
+        else:
+            defjvp(foo, lambda g, ans, x: {"v": g * 3.0, "u": g * 2.0 * x})
+        return foo
+
     return [
+        ("dict-valued output, tangent keys in another order", dict_out, R(2), ["swapped"], False),
         ("scalar quadratic", scalar_quad, SC, ["factor", "sign"], True),
         ("array quadratic (2,)", array_quad, R(2), ["factor", "sign", "entry"], False),
         ("matrix-vector product", matvec, R(2), ["transpose"], False),
